@@ -49,9 +49,23 @@ REFRESH_IMPL = {"update", "_update_path_to_root", "_update_node", "update_node_f
 RECURSION = {"compute_log_S", "_sub_compute_S", "compute_log_D", "_convolve_two_children", "_np_conv_dims", "fft_convolve_two_children"}
 
 
+def _as_attr_store(e):
+    """`obj.attr += v` (a store to the attribute) and `a = obj.attr; a += v` (an in-place update of the array the
+    attribute holds) leave the attribute holding the same value: one effect, two spellings."""
+    from ..termflow import Event, poly_from_key, _is_polykey
+
+    if e.name == "store_content" and len(e.args) == 2 and isinstance(e.args[0], Poly):
+        a = e.args[0].as_atom()
+        if a is not None and a[0] == "attr" and _is_polykey(a[1]):
+            n = Event("store_attr", [poly_from_key(a[1]), e.args[1]], {"attr": a[2]}, e.guards, e.node)
+            n.full_guards = list(e.full_guards)
+            return n
+    return e
+
+
 def _effects(ex, ignored=IGNORED, keep_log_r=False):
     out = []
-    for e in ex.events:
+    for e in map(_as_attr_store, ex.events):
         if e.name == ".update" and e.args:
             pass  # dict.update(mapping): an effect (only the argument-less Tree.update() is a refresh)
         elif e.name in ignored or e.name.startswith(".get_"):
